@@ -481,6 +481,16 @@ func c14(c *Check) {
 			c.Ok("C14/nondeterminism-source", construct, s.Pos, "audited: "+hit.reason)
 		}
 	}
+	c.Rule("C14/no-node-local-state", "block processing keeps no state outside the stores: no writes to package-level variables, sync.Map or receiver-held maps in reachable teleport code (such memory differs between nodes and survives discarded cache contexts); audited: the vendored ethash's per-instance caches", 50)
+	for _, f := range fns {
+		ws := sharedMemoryWrites(c, f)
+		if len(ws) == 0 {
+			c.Ok("C14/no-node-local-state", funcName(f), f.Pos(), "")
+			continue
+		}
+		audited := strings.HasPrefix(funcName(f), "eth/types.") && (strings.Contains(funcName(f), "lru") || strings.Contains(funcName(f), "Ethash") || strings.Contains(funcName(f), "remoteSealer") || strings.Contains(funcName(f), "cache") || strings.Contains(funcName(f), "dataset"))
+		c.Req(audited, "C14/no-node-local-state", funcName(f), f.Pos(), "audited: per-instance ethash structure of a throw-away verifier", "node-local state written during block processing: "+strings.Join(ws, "; "))
+	}
 	c.Extra["reachable_functions"] = len(fns)
 	c.Extra["sites_examined"] = nsites
 	c.Rule("C14/audit-table-live", "every audited entry still matches a reachable site", 15)
